@@ -167,7 +167,7 @@ def a3_recording_sites(ctx) -> None:
             if not (isinstance(c, ast.Call) and isinstance(c.func, ast.Attribute)):
                 continue
             recv = norm(c.func.value)
-            is_db_add = c.func.attr == "add" and (recv.endswith("ruledb") or recv == "ruledb")
+            is_db_add = c.func.attr == "add" and (recv.endswith("ruledb") or recv == "ruledb" or _is_ruledb_local(P, f, c.func.value))
             is_add_rule = c.func.attr == "add_rule"
             if not (is_db_add or is_add_rule):
                 continue
@@ -183,6 +183,18 @@ def a3_recording_sites(ctx) -> None:
                 ctx.ok("A3", f"{fi.qualname}: {norm(c)[:70]} <- {why}")
     if n < 7:
         ctx.floor("A3", 7)
+
+
+def _is_ruledb_local(P, f, e: ast.AST) -> bool:
+    """A local name bound to a freshly constructed rule database."""
+    if not isinstance(e, ast.Name):
+        return False
+    r = D.reaching_value(f, e, e.id)
+    if r is None or not isinstance(r[1], ast.Call):
+        return False
+    name = norm(r[1].func).split(".")[-1]
+    cls = P.classes.get(name)
+    return cls is not None and any(c.name == "RuleDBAbstract" for c in P.mro(cls))
 
 
 def _triple_provenance(P, fi, f, c: ast.Call) -> str:
@@ -419,8 +431,11 @@ def _rule_vars(f: ast.AST, mname: str) -> List[str]:
     elif mname == "_rules_for_class":
         # the loop variable over strats_or_rules, in the branch where it is not a strategy
         for n in walk_local(f):
-            if isinstance(n, ast.For) and norm(n.iter) == "strats_or_rules":
-                out.append(norm(n.target))
+            if isinstance(n, ast.For) and isinstance(n.target, ast.Name):
+                tests = [t for t in walk_local(n) if isinstance(t, ast.Call) and norm(t.func) == "isinstance" and len(t.args) == 2
+                         and norm(t.args[0]) == n.target.id and "AbstractStrategy" in norm(t.args[1])]
+                if tests:
+                    out.append(n.target.id)
     return out
 
 
